@@ -201,7 +201,8 @@ CLAIMED['C15'] = dict(
          'typed, optional/empty, not configured), first-use phase per attachment (earlyInit, initModule, startModule, poll, '
          'shutdown, never), shuffled declaration order, Pinata with dynamic modules, shared communicator through uri, '
          'configured writes, failing early/late initialisation, slow or hanging first polls, shutdown during a read '
-         '(shorter and longer than the grace time) - '
+         '(shorter and longer than the grace time), optionally a restart (shutdown, then the same configuration '
+         'started again in the same process, judged like the first generation) - '
          'running the real Server._processCfg, start events, poll threads and SecNode.shutdown_modules. Event log rules: '
          'each phase exactly once and in order, attached module initialised before use, configuration errors reported, '
          'configured write before the first poll, ready only after the first round or the time-out, pollers stopped '
